@@ -265,7 +265,18 @@ func checkUniverse(c *core.Ctx, corpus string, u *gengotypes.Universe, pkgPaths 
 			case ipkg == nil:
 				c.Fail("C13-imports-nil-entries", cs, "%s: Imports()[%q] is nil", path, ip)
 			case ipkg != u.Package(ip):
-				c.Fail("", cs, "%s: Imports()[%q] is not Universe.Package(%q)", path, ip, ip)
+				// std packages import their vendored dependencies under the path written in the source
+				// ("golang.org/x/crypto/...") while the package is "vendor/golang.org/x/crypto/...": compare
+				// with the package the type checker resolved the import to
+				resolved := ""
+				for _, tp := range p.Pkg().Imports() {
+					if tp.Path() == "vendor/"+ip || strings.HasSuffix(tp.Path(), "/vendor/"+ip) {
+						resolved = tp.Path()
+					}
+				}
+				if resolved == "" || ipkg != u.Package(resolved) {
+					c.Fail("", cs, "%s: Imports()[%q] is not Universe.Package(%q)", path, ip, ip)
+				}
 			}
 		}
 		for ip := range gotImp {
@@ -369,6 +380,62 @@ func loadReal(c *core.Ctx) (*gengotypes.Universe, []string) {
 	return u, paths
 }
 
+// a second pinned corpus (thorough): std packages gengo itself does not reach
+const stdCorpusSource = `package corp
+
+import (
+	_ "archive/tar"
+	_ "compress/gzip"
+	_ "crypto/tls"
+	_ "database/sql"
+	_ "encoding/xml"
+	_ "go/doc"
+	_ "html/template"
+	_ "image/png"
+	_ "math/big"
+	_ "net/http"
+	_ "net/rpc"
+	_ "os/exec"
+	_ "regexp"
+	_ "testing"
+	_ "text/tabwriter"
+)
+`
+
+var stdDir string
+
+func loadStd(c *core.Ctx) (*gengotypes.Universe, []string) {
+	if stdDir == "" {
+		stdDir = pipe.TempDir("c13std")
+		_ = pipe.WriteTree(stdDir, pipe.Tree{"go.mod": pipe.GoMod("x.io/corp", "1.24"), "corp.go": stdCorpusSource})
+	}
+	silence := silenceStdout()
+	u, err := gengotypes.Load([]string{"."}, gengotypes.WithDir(stdDir))
+	silence()
+	if err != nil {
+		c.Internal("load std corpus: %v", err)
+		return nil, nil
+	}
+	seen := map[string]bool{}
+	var paths []string
+	var walk func(p gengotypes.Package)
+	walk = func(p gengotypes.Package) {
+		if p == nil || seen[p.Pkg().Path()] {
+			return
+		}
+		seen[p.Pkg().Path()] = true
+		paths = append(paths, p.Pkg().Path())
+		for _, ip := range p.Pkg().Imports() {
+			walk(u.Package(ip.Path()))
+		}
+	}
+	for path := range u.LocalPkgPaths() {
+		walk(u.Package(path))
+	}
+	sort.Strings(paths)
+	return u, paths
+}
+
 func silenceStdout() func() {
 	real := os.Stdout
 	null, err := os.OpenFile(os.DevNull, os.O_WRONLY, 0)
@@ -383,6 +450,9 @@ func run(c *core.Ctx) {
 	defer func() {
 		if synthDir != "" {
 			os.RemoveAll(synthDir)
+		}
+		if stdDir != "" {
+			os.RemoveAll(stdDir)
 		}
 	}()
 	c.Bound("synthetic_feature_bits", featureNames)
@@ -412,6 +482,9 @@ func run(c *core.Ctx) {
 					jobs = append(jobs, job{"real", 0, v})
 				}
 			}
+			for d := 0; d < seamctl.NPolicies; d++ {
+				jobs = append(jobs, job{"std", d, nil})
+			}
 		}
 	} else {
 		jobs = []job{{"synthetic", 0, nil}, {"real", 0, nil}}
@@ -425,9 +498,13 @@ func run(c *core.Ctx) {
 		seamctl.Set(j.def, j.pol)
 		var u *gengotypes.Universe
 		var paths []string
-		if j.corpus == "synthetic" {
+		switch j.corpus {
+		case "synthetic":
 			u, paths = loadSynthetic(c)
-		} else {
+		case "std":
+			u, paths = loadStd(c)
+			c.Bound("std_corpus_packages", len(paths))
+		default:
 			u, paths = loadReal(c)
 			nReal = len(paths)
 		}
@@ -459,9 +536,13 @@ func replay(c *core.Ctx, raw json.RawMessage) {
 	seamctl.Set(cs.Def, cs.Policy)
 	var u *gengotypes.Universe
 	var paths []string
-	if cs.Corpus == "synthetic" {
+	switch cs.Corpus {
+	case "synthetic":
 		u, paths = loadSynthetic(c)
-	} else {
+	case "std":
+		u, paths = loadStd(c)
+		defer os.RemoveAll(stdDir)
+	default:
 		u, paths = loadReal(c)
 	}
 	if u != nil {
@@ -477,6 +558,7 @@ func init() {
 			"blank names and init are ignored in all three tables",
 			"MethodsOf of interface types is not judged (statement: 'declared methods')",
 			"LocateInPackage/SourceDir are judged for module packages whose files sit in one directory",
+			"an import that the go tool resolves to a vendored copy (std's vendor/golang.org/x/...) is compared with Universe.Package(resolved path)",
 		},
 	})
 }
